@@ -183,6 +183,16 @@ func buildDecorator(spec DecSpec, bar, side, ord int) decor.Decorator {
 		wc = sharedStyles[[2]int{spec.W, spec.C}]
 	}
 	var d decor.Decorator
+	if spec.Kind == DecNil {
+		decoy := decor.Name("DECOY!")
+		switch spec.Style % 3 {
+		case 1:
+			return decor.OnCondition(decoy, false)
+		case 2:
+			return decor.OnPredicate(decoy, func() bool { return false })
+		}
+		return nil
+	}
 	if spec.Kind != DecProbe {
 		simrt.Log(simrt.Entry{Kind: EvDecNew, ID: bar, A: int64(side), B: int64(ord), V: simrt.PeekNS()})
 	}
@@ -243,6 +253,16 @@ func buildDecorator(spec DecSpec, bar, side, ord int) decor.Decorator {
 		case WrapOnAbortMeta:
 			d = decor.OnAbortMeta(d, metaFn)
 		}
+	}
+	switch spec.Cond {
+	case 1:
+		d = decor.OnCondition(d, true)
+	case 2:
+		d = decor.OnPredicate(d, func() bool { return true })
+	case 3:
+		d = decor.Conditional(false, decor.Name("DECOY!"), d)
+	case 4:
+		d = decor.Predicative(func() bool { return false }, decor.Name("DECOY!"), d)
 	}
 	if spec.Mark {
 		tag := MarkTag(bar, side, ord)
